@@ -46,9 +46,14 @@ VARIABLES
   cals,       \* heap: seq of [val, writes]: val = value term of the result, writes = set of recipes that wrote into it
   snap,       \* ghost: seq of value terms at return time
   outs,       \* ghost: set of <<recipe, value term of the calibration result as SEEN by this call, value at return time>>
-  hist, last
-vars == <<policy, rec, quantized, cals, snap, outs, hist, last>>
-View == <<policy, rec, quantized, cals, outs>>
+  scar,       \* [1..NQ -> outcome of the most recent call on that Quantizer that RAISED, or "none"]: a failed call changes nothing
+              \*   else in this specification; keeping it in the state (and the VIEW) makes TLC explore - and the replay execute -
+              \*   every continuation AFTER a failed call as well, so "a call that raises leaves the object as it was" is checked
+  hist, last  \* hist: one entry per call, ending with the outcome predicted for that call
+vars == <<policy, rec, quantized, cals, snap, outs, scar, hist, last>>
+View == <<policy, rec, quantized, cals, outs, scar>>
+Raised(o) == o \notin {"ok", "empty"}
+Scar(q, kind) == scar' = IF Raised(last') THEN [scar EXCEPT ![q] = last'] ELSE scar
 
 Qs == 1..NQ
 NoCal == 0
@@ -63,13 +68,14 @@ Load(q, r) ==
   /\ rec' = [rec EXCEPT ![q] = LoadOutcome[<<r, policy>>][2]]
   /\ last' = (IF LoadOutcome[<<r, policy>>][1] = "ok" THEN "ok" ELSE "raise:refused")
   /\ UNCHANGED <<policy, quantized, cals, snap, outs>>
-  /\ hist' = Append(hist, <<"load", q, r>>)
+  /\ Scar(q, "load")
+  /\ hist' = Append(hist, <<"load", q, r, last'>>)
 
 \* Quantizer.load_config_policy: replaces the policy for every Quantizer of the process
 LoadPolicy(q, p) ==
   /\ policy' = p /\ last' = "ok"
-  /\ UNCHANGED <<rec, quantized, cals, snap, outs>>
-  /\ hist' = Append(hist, <<"policy", q, p>>)
+  /\ UNCHANGED <<rec, quantized, cals, snap, outs, scar>>
+  /\ hist' = Append(hist, <<"policy", q, p, last'>>)
 
 \* calibrate(data d, previous_calibration_result = cals[prev]) on quantizer q
 Calibrate(q, d, prev) ==
@@ -82,8 +88,8 @@ Calibrate(q, d, prev) ==
              /\ cals' = Append(cals, [val |-> v, writes |-> {}])
              /\ snap' = Append(snap, v)
           /\ last' = "ok"
-  /\ UNCHANGED <<policy, rec, quantized, outs>>
-  /\ hist' = Append(hist, <<"calibrate", q, d, prev>>)
+  /\ UNCHANGED <<policy, rec, quantized, outs, scar>>
+  /\ hist' = Append(hist, <<"calibrate", q, d, prev, last'>>)
 
 Quantize(q, k) ==
   /\ k \in 0..Len(cals)
@@ -97,15 +103,17 @@ Quantize(q, k) ==
                      THEN [cals EXCEPT ![k].writes = @ \cup {rec[q]}] ELSE cals
           /\ last' = "ok"
   /\ UNCHANGED <<policy, rec, snap>>
-  /\ hist' = Append(hist, <<"quantize", q, k>>)
+  /\ Scar(q, "quantize")
+  /\ hist' = Append(hist, <<"quantize", q, k, last'>>)
 
 Validate(q) ==
   /\ last' = IF quantized[q] THEN "ok" ELSE "raise:noresult"
   /\ UNCHANGED <<policy, rec, quantized, cals, snap, outs>>
-  /\ hist' = Append(hist, <<"validate", q>>)
+  /\ Scar(q, "validate")
+  /\ hist' = Append(hist, <<"validate", q, last'>>)
 
 Init == /\ policy = "P0" /\ rec = [q \in Qs |-> NoRecipe] /\ quantized = [q \in Qs |-> FALSE]
-        /\ cals = <<>> /\ snap = <<>> /\ outs = {} /\ hist = <<>> /\ last = "init"
+        /\ cals = <<>> /\ snap = <<>> /\ outs = {} /\ scar = [q \in Qs |-> "none"] /\ hist = <<>> /\ last = "init"
 Next == /\ Len(hist) < MaxLen
         /\ \E q \in Qs : \/ \E r \in Recipes : Load(q, r)
                          \/ \E p \in Policies : (p # policy /\ LoadPolicy(q, p))
